@@ -11,6 +11,7 @@ THEOREMS = "auto"
 ASSUMPTIONS = ["all-integer model (h3ToFaceIjk, substrate vertices, overage adjustment, output set) tied by exact "
                "correspondence; the geometric reading (faces the interior intersects) is evaluated with an oracle "
                "that assigns interior sample points of cellToBoundary to the nearest face centre"]
+ASSUMPTIONS.append('maxFaceCount, isPentagon and makeDirectChild (the Class II pentagon redirect) are translated from the C text on every run and proved equal to the model functions (C10Gen, C04Gen); makeDirectChild is undefined at resolution 15 (shift by -3), which its only call site excludes')
 NOT_PROVED = ["faces = faces intersected by the interior (geometric reading; convexity argument not formalised)", "a hexagon reports one or two faces: at most two by the output-shape theorem; that the second is reported exactly when the interior crosses an icosahedron edge is the geometric reading above (every pentagon reports exactly five distinct faces: C19Pent.pentagon_five_faces, all 192 pentagons enumerated in the kernel)"]
 EXPLANATION = ("output-shape theorem (on success: exactly maxFaceCount slots, pairwise distinct faces 0..19, then -1 padding; every input) / table theorems; exact correspondence of getIcosahedronFaces and its integer helpers; "
                "evaluator: reported set = nearest-face set of interior sample points, on complete coarse resolutions, "
